@@ -24,7 +24,22 @@ type Val struct {
 	B  bool   `json:"b,omitempty"` // bool
 	Es []Val  `json:"es,omitempty"`
 	Ks []Val  `json:"ks,omitempty"` // hash keys (same length as Es)
+	// ID is the identity of a container instance: containers carrying the same ID > 0 inside one value are
+	// ONE implementation object occurring at several positions (aliasing); 0 = an object of its own;
+	// idEmptyArray / idEmptyMap = the package-level singletons px.EmptyArray / px.EmptyMap.
+	ID int `json:"id,omitempty"`
 }
+
+const (
+	idEmptyArray = -1
+	idEmptyMap   = -2
+)
+
+// shared marks a container as the instance `id`.
+func (v Val) shared(id int) Val { v.ID = id; return v }
+
+var vEmptyArray = Val{K: "arr", ID: idEmptyArray}
+var vEmptyMap = Val{K: "hash", ID: idEmptyMap}
 
 func vInt(i int64) Val { return Val{K: "int", I: i} }
 func vFloat(f float64) Val {
@@ -65,8 +80,28 @@ func (v Val) float() float64 {
 
 func (v Val) isContainer() bool { return v.K == "arr" || v.K == "hash" }
 
-// px builds the implementation's value.
-func (v Val) px() px.Value {
+// px builds the implementation's value; containers with the same ID are built once (one instance).
+func (v Val) px() px.Value { return v.pxm(map[int]px.Value{}) }
+
+func (v Val) pxm(memo map[int]px.Value) px.Value {
+	if v.isContainer() && v.ID != 0 {
+		if pv, ok := memo[v.ID]; ok {
+			return pv
+		}
+		var pv px.Value
+		switch {
+		case v.ID == idEmptyArray:
+			pv = px.EmptyArray
+		case v.ID == idEmptyMap:
+			pv = px.EmptyMap
+		default:
+			w := v
+			w.ID = 0
+			pv = w.pxm(memo)
+		}
+		memo[v.ID] = pv
+		return pv
+	}
 	switch v.K {
 	case "int":
 		return types.WrapInteger(v.I)
@@ -87,13 +122,13 @@ func (v Val) px() px.Value {
 	case "arr":
 		es := make([]px.Value, len(v.Es))
 		for i, e := range v.Es {
-			es[i] = e.px()
+			es[i] = e.pxm(memo)
 		}
 		return types.WrapValues(es)
 	case "hash":
 		es := make([]*types.HashEntry, len(v.Es))
 		for i, e := range v.Es {
-			es[i] = types.WrapHashEntry(v.Ks[i].px(), e.px())
+			es[i] = types.WrapHashEntry(v.Ks[i].pxm(memo), e.pxm(memo))
 		}
 		return types.WrapHash(es)
 	}
@@ -127,6 +162,33 @@ func (v Val) kindName() string {
 	panic("bad value kind " + v.K)
 }
 
+func (v Val) idMark() string {
+	switch {
+	case v.ID == idEmptyArray:
+		return "@EmptyArray"
+	case v.ID == idEmptyMap:
+		return "@EmptyMap"
+	case v.ID != 0:
+		return fmt.Sprintf("@%d", v.ID)
+	}
+	return ""
+}
+
+// hasSharing: some container instance occurs at more than one position.
+func (v Val) hasSharing() bool {
+	seen := map[int]bool{}
+	dup := false
+	v.walk(func(x Val) {
+		if x.isContainer() && x.ID != 0 {
+			if seen[x.ID] {
+				dup = true
+			}
+			seen[x.ID] = true
+		}
+	})
+	return dup
+}
+
 func (v Val) String() string {
 	switch v.K {
 	case "int":
@@ -148,15 +210,43 @@ func (v Val) String() string {
 		for i, e := range v.Es {
 			ss[i] = e.String()
 		}
-		return "[" + strings.Join(ss, ", ") + "]"
+		return v.idMark() + "[" + strings.Join(ss, ", ") + "]"
 	case "hash":
 		ss := make([]string, len(v.Es))
 		for i, e := range v.Es {
 			ss[i] = v.Ks[i].String() + " => " + e.String()
 		}
-		return "{" + strings.Join(ss, ", ") + "}"
+		return v.idMark() + "{" + strings.Join(ss, ", ") + "}"
 	}
 	return "?"
+}
+
+// lgallina: the value with its container identities (`lvalue` of coq/Model/FormatShare.v).
+func (v Val) lgallina() string {
+	id := "None"
+	switch {
+	case v.ID == idEmptyArray:
+		id = "(Some 4000000001%N)"
+	case v.ID == idEmptyMap:
+		id = "(Some 4000000002%N)"
+	case v.ID != 0:
+		id = fmt.Sprintf("(Some %d%%N)", v.ID)
+	}
+	switch v.K {
+	case "arr":
+		es := make([]string, len(v.Es))
+		for i, e := range v.Es {
+			es[i] = "(" + e.lgallina() + ")"
+		}
+		return "LArr " + id + " " + lib.GList(es, "lvalue")
+	case "hash":
+		es := make([]string, len(v.Es))
+		for i, e := range v.Es {
+			es[i] = "((" + v.Ks[i].lgallina() + "), (" + e.lgallina() + "))"
+		}
+		return "LHash " + id + " " + lib.GList(es, "lvalue * lvalue")
+	}
+	return "LTree (" + v.gallina() + ")"
 }
 
 func (v Val) gallina() string {
